@@ -36,7 +36,27 @@ Definition use_hex_backslashes (s : str) : str := replace_all bs_bs hex_bs s.
 (* ---------- includeVerticalTabInSpaceClass ---------- *)
 Definition perl_space : str := $"\t\n\f\r ".      (* the 9 bytes \ t \ n \ f \ r space *)
 Definition space_vt : str := $"\s\x0b".
-Definition include_vt (s : str) : str := replace_all perl_space space_vt s.
+(* perlSpaceClassRegexp  \\t\\n\\f\\r (?:-[^\]])?  with ReplaceAllStringFunc: the class text becomes
+   \s\x0b; when the space starts a range (a dash and a character other than a closing bracket
+   follow) the space is kept and the dash and that character are copied *)
+Fixpoint include_vt_aux (fuel : nat) (s : str) : str :=
+  match fuel with
+  | O => s
+  | S f =>
+    match s with
+    | [] => []
+    | c :: s' =>
+      if prefixb perl_space s then
+        match skipn 9 s with
+        | d :: x :: rest' =>
+          if (d =? 45) && negb (x =? 93) then space_vt ++ [32; 45; x] ++ include_vt_aux f rest'
+          else space_vt ++ include_vt_aux f (d :: x :: rest')
+        | rest => space_vt ++ include_vt_aux f rest
+        end
+      else c :: include_vt_aux f s'
+    end
+  end.
+Definition include_vt (s : str) : str := include_vt_aux (S (length s)) s.
 
 (* ---------- useHexEscapes: ranges over RUNES (Go's UTF-8 decoding) ---------- *)
 Definition cont (b : N) : bool := (128 <=? b) && (b <=? 191).
@@ -168,30 +188,39 @@ Fixpoint strip_flag_starts_aux (fuel : nat) (s : str) : str :=
   end.
 Definition strip_flag_starts (s : str) : str := strip_flag_starts_aux (S (length s)) s.
 
-(* FindStringIndex of \(\?[-misU]+: : (start, end) of the leftmost match *)
-Fixpoint find_flag_group (s : str) (i : nat) : option (nat * nat) :=
-  match flag_group_here 58 s with
-  | Some n => Some (i, (i + n)%nat)
-  | None => match s with [] => None | _ :: s' => find_flag_group s' (S i) end
+(* the leftmost match of \(\?[-misU]+: at or after position i whose parenthesis is NOT escaped:
+   (start, end).  [before_rev] = input[:i] reversed, [rest] = input[i:] *)
+Fixpoint find_ufg (before_rev rest : str) (i : nat) : option (nat * nat) :=
+  match rest with
+  | [] => None
+  | c :: rest' =>
+    match flag_group_here 58 rest with
+    | Some n =>
+      if is_escaped_rev before_rev then find_ufg (c :: before_rev) rest' (S i)
+      else Some (i, (i + n)%nat)
+    | None => find_ufg (c :: before_rev) rest' (S i)
+    end
   end.
+Definition find_flag_group (s : str) (from : nat) : option (nat * nat) :=
+  find_ufg (rv (firstn from s)) (skipn from s) from.
 
 (* the for-loop; the Go loop has no bound, the model's fuel is the input length + 1
-   (every successful removeGroup shortens the text by at least three bytes);
-   fuel exhaustion is reported as a hang (Err 99), never as a result *)
+   (every successful removeGroup shortens the text); fuel exhaustion is reported as a hang
+   (Err 99), never as a result.  [from] is searchStart. *)
 Definition err_hang : N := 99.
-Fixpoint strip_flag_groups (fuel : nat) (s : str) : outcome str :=
-  match find_flag_group s 0 with
+Fixpoint strip_flag_groups (fuel : nat) (s : str) (from : nat) : outcome str :=
+  match find_flag_group s from with
   | None => Ok s
   | Some (a, b) =>
     match fuel with
     | O => Err err_hang
-    | S f => do s' <- remove_group s a b false; strip_flag_groups f s'
+    | S f => do s' <- remove_group s a b false; strip_flag_groups f s' a
     end
   end.
 
 Definition dont_use_flags (s : str) : outcome str :=
   let s1 := strip_flag_starts s in
-  strip_flag_groups (S (length s1)) s1.
+  strip_flag_groups (S (length s1)) s1 0.
 
 (* ---------- removeOutermostNonCapturingGroup ---------- *)
 (* ^\(\?:.*\)$  ('.' does not match '\n') *)
